@@ -253,7 +253,7 @@ prop(
     "contract-based deductive verification of the WIRING (which loader class reads the document, which constructors it can gain) - obligations decided on the AST and by the VC generator; the universal claim over documents rests on the assumed PyYAML safe-loader contract",
     "wiring proved: the configuration loader derives only from yaml.SafeLoader, gains constructors only in add_constructor_plugins under '!'+name tags with yaml_constructor(plugin factory), load() reads YAML only through that loader, yaml.load_configuration takes the data only from loader(stream).get_single_data(); no permissive PyYAML entry point is named anywhere in src. The quantifier over all documents is ASSUMED of PyYAML (SafeLoader raises ConstructorError for every other tag before importing or calling anything) and is only probed by a corpus of python/* documents",
     "trusted: the PyYAML safe-loader contract carries the universal quantifier; pyvc's AST resolution of names/imports",
-    trusted=["ASSUMED (carries the quantifier over documents): a loader whose constructor tables are SafeLoader's plus add_constructor entries constructs objects only through those entries and raises ConstructorError for every other tag, incl. every tag:yaml.org,2002:python/*, before importing or calling anything the tag names",
+    trusted=["ASSUMED (carries the quantifier over documents): a loader whose constructor tables are SafeLoader's plus add_constructor entries constructs objects only through those entries and raises ConstructorError for every other tag, incl. every tag:yaml.org,2002:python/*, before importing or calling anything the tag names - EXCEPT for a tag on a mapping that is the value (or an item of the sequence value) of a merge key `<<`: flatten_mapping merges it by node kind and ignores the tag (accepted, nothing instantiated; known finding C18-merge-key-value-tag-is-ignored)",
              "PROBE (not proof): a corpus of python/* documents at top level, inside the pipeline and nested in a registered tag's arguments is loaded through the real load() with canaries, see coverage.bounded"],
     explanation="wiring obligations are proved (AST-decided + VCs); the claim over all documents is the assumed PyYAML contract, probed by a corpus",
     design_ref="5/C18",
